@@ -486,19 +486,23 @@ def rawLines (s : Str) : List Str :=
   if s.getLast? = some '\n' then ls.map (· ++ ['\n'])
   else ls.dropLast.map (· ++ ['\n']) ++ ls.getLast?.toList
 
+/-- the lines of a file paired with their raw form: (line without its newline, line as `readline()` returns it) -/
+def linePairs (s : Str) : List (Str × Str) := (fileLines s).zip (rawLines s)
+
 /-- header loop of the first pass: `if line[0] == cmt: line = line[1:]; name_non_special = line.split(sep)` on the raw line -/
-def hdrLoopNames (sep cmt : Char) : Nat → List Str → Option (List Str) → Except String (List Str × Option (List Str))
+def hdrLoopNames (sep cmt : Char) : Nat → List (Str × Str) → Option (List Str) →
+    Except String (List (Str × Str) × Option (List Str))
   | 0, ls, nm => pure (ls, nm)
   | _+1, [], _ => throw "index"
   | k+1, l :: ls, _ =>
-    hdrLoopNames sep cmt k ls (some (splitOnChar sep (if l.head? = some cmt then l.drop 1 else l)))
+    hdrLoopNames sep cmt k ls (some (splitOnChar sep (if l.2.head? = some cmt then l.2.drop 1 else l.2)))
 
 /-- data loop of the first pass as far as `name_non_special` (comment lines: `line[1:].split(sep)` of the stripped line) and
 the length of the last `fields` are concerned -/
-def dataLoopNames (sep cmt : Char) : List Str → Option (List Str) → Option Nat → Option (List Str) × Option Nat
+def dataLoopNames (sep cmt : Char) : List (Str × Str) → Option (List Str) → Option Nat → Option (List Str) × Option Nat
   | [], nm, nf => (nm, nf)
   | l :: ls, nm, nf =>
-    match strip l with
+    match strip l.1 with
     | [] => (nm, nf)
     | c :: cs =>
       if c = cmt then dataLoopNames sep cmt ls (some (splitOnChar sep cs)) nf
@@ -555,8 +559,7 @@ def afLoop (f : CsvFmt) (cmt : Char) (names dico : List Str) :
 and, per observation, the feature values (0.0 where a line has fewer fields) -/
 def readAll (f : CsvFmt) (header : Nat) (cmt : Char) (text : Str) (nobs : Nat) :
     Except String (List Str × List (List AFRead)) := do
-  let raw := rawLines text
-  let (rest, nm0) ← hdrLoopNames f.sep cmt header raw none
+  let (rest, nm0) ← hdrLoopNames f.sep cmt header (linePairs text) none
   let (nm, nf) := dataLoopNames f.sep cmt rest nm0 none
   match nm with
   | none => throw "unbound"
@@ -567,7 +570,7 @@ def readAll (f : CsvFmt) (header : Nat) (cmt : Char) (text : Str) (nobs : Nat) :
     | some nf => do
       let dico ← createAFs f names nf
       let init := List.replicate nobs (List.replicate dico.length (AFRead.num (0, 0)))
-      let fs ← afLoop f cmt names dico true (((fileLines text).zip raw).drop header) 0 init
+      let fs ← afLoop f cmt names dico true ((linePairs text).drop header) 0 init
       pure (dico, fs)
 
 /-- `TrackReader.readFromCsv(..., read_all=True)`: the observations, the feature names, the feature values -/
